@@ -13,6 +13,7 @@ b (added)  series weights: the k-th iterated bracket enters with 1/k! (formal bl
            the coordinate series examined are the ones HamiltonianPipeline.get_lie_expansions requests (its own keyword arguments)
 d (added)  generating functions are stored under / read from the slot of their own transform (C18.b slot rule, re-filed)
 d-source (round 4)  C09.d re-filed: the centre-manifold restriction never writes into the cached normal-form polynomial
+d (round 5)  the facade's generating-function objects keep G_n at position n of a full-length block list
 """
 from __future__ import annotations
 
@@ -21,7 +22,7 @@ import sympy as sp
 
 from ..core import Check, AnalysisError
 from .. import repoindex as ri
-from ..kpe import Interp, SymObj, to_obj_array, S, OutsideFragment
+from ..kpe import Interp, SymObj, ClassRef, to_obj_array, S, OutsideFragment
 from ..regions import RegionDecider
 from .. import polyref as pr
 from ..polyref import X, monomial, poisson
@@ -199,6 +200,7 @@ def run(tier):
     from . import c09 as _c09
     from .common import Relabel as _Relabel2
     _c09._d_restriction(_Relabel2(chk, {"C09.d": "C08.d-source"}))
+    _d_facade_generators(chk)
     return chk
 
 
@@ -465,3 +467,36 @@ def _d_truncation_counts(chk):
               sample=f"K >= ceil((N-2)/(n-2)) on all {cnt} pairs 3<=n<=N<=30")
     chk.check(not bad2, "C08.d", f"{CL}::_apply_coord_transform[K_max]", f"number of coordinate-series terms too small for {bad2[:3]}: needs ceil((N-1)/(n-2))",
               sample=f"K_max >= ceil((N-1)/(n-2)) on all {cnt} pairs")
+
+
+def _d_facade_generators(chk):
+    """The generating functions the point's facade hands out are the G_n the transformation used: LibrationPoint.generating_functions(N) wraps each homogeneous
+    block G_n in an object of its own; in that object's block list the block must sit at position n (the evaluator reads position d as the degree-d block) and every
+    other position must be a zero block.  Interpreted on a model pipeline whose generating functions are five tagged blocks."""
+    LS = "hiten.algorithms.types.services.libration"
+    mod, cls = ri.find_def(LS, "_LibrationDynamicsService")
+    sizes = [1, 6, 21, 56, 126]
+    blocks = [to_obj_array([sp.Symbol(f"G{n}_{k}") for k in range(min(sizes[n], 3))]) for n in range(5)]
+    built = []
+    gen = SymObj(None, {"poly_G": [b.copy() for b in blocks], "poly_elim": [], "degree": 4}, "generating functions (partial)")
+    pipeline = SymObj(None, {"get_generating_functions": lambda kind, **kw: gen}, "pipeline")
+    cm = SymObj(None, {"compute": lambda *a, **k: None, "dynamics": SymObj(None, {"pipeline": pipeline}, "cm.dynamics")}, "centre manifold")
+    dom = SymObj(None, {"idx": 1}, "point")
+    svc = SymObj(ClassRef(mod, cls), {"domain_obj": dom, "_domain_obj": dom, "make_key": lambda *a: tuple(map(str, a)), "get_or_create": lambda k, f: f(), "center_manifold": lambda d: cm}, "service")
+    ip = Interp(overrides={"LieGeneratingFunction": lambda ip_, a, k: (built.append(dict(k)), SymObj(None, dict(k), "LGF"))[1]})
+    try:
+        out = ip.apply(ip.getattr(svc, "generating_functions"), [4], {})
+    except OutsideFragment as exc:
+        raise AnalysisError(f"_LibrationDynamicsService.generating_functions outside fragment: {exc}")
+    chk.count("functions partially evaluated")
+    bad = []
+    for n, kw in enumerate(built):
+        pg = kw.get("poly_G")
+        ok = isinstance(pg, list) and len(pg) == len(blocks) and list(to_obj_array(pg[n])) == list(blocks[n]) \
+            and all(all(S(v) == 0 for v in to_obj_array(pg[d])) and to_obj_array(pg[d]).shape == blocks[d].shape for d in range(len(blocks)) if d != n)
+        if not ok:
+            bad.append((n, None if pg is None else [list(to_obj_array(b)) for b in pg][:3]))
+    chk.check(len(built) == len(blocks) and not bad, "C08.d", f"{LS}::_LibrationDynamicsService.generating_functions",
+              f"{len(built)} objects built for {len(blocks)} blocks; in {[b[0] for b in bad]} the degree-n block is not at position n of a full-length block list (e.g. n={bad[0][0]}: "
+              f"{bad[0][1]}): evaluating the object reads G_n as the constant term" if bad else f"{len(built)} objects built for {len(blocks)} blocks",
+              sample="object n: block list of full length, G_n at position n, zero blocks elsewhere")
